@@ -1,6 +1,7 @@
 mod adapter;
 mod arch;
 mod choice;
+mod cli;
 mod gen;
 mod link;
 mod machine;
